@@ -242,7 +242,7 @@ def parse_obs(s):
         if "/" in v:
             v, full = v.rsplit("/", 1)
         toks = frozenset() if v[1:] == "-" else frozenset(v[1:].split(","))
-        out[n] = (v[0] == "+", toks, full)
+        out[n] = (int(v[0]), toks, full)   # bits: 1 parsed_modules, 2 string_sources, 4 checked_modules
     return out
 
 
@@ -339,29 +339,34 @@ def judge(tb, h, impl, idx, model):
             orc.append((i, f"fresh ServerState::new failed: {impl[f][:120]}"))
             break
         if fr is not None:
-            present = sorted(n for n, v in inc.items() if v[0])
+            present = sorted(n for n, v in inc.items() if v[0] & 1)
             if present != sorted(files):
                 orc.append((i, f"all_modules() = {present} but the files are {sorted(files)}"))
             for n in sorted(files):
-                iv, fv = inc.get(n, (False, frozenset(), None)), fr.get(n, (False, frozenset(), None))
+                iv, fv = inc.get(n, (0, frozenset(), None)), fr.get(n, (0, frozenset(), None))
+                if iv[0] != 7 or fv[0] != 7:
+                    orc.append((i, f"module {n} is a file but parsed/string_sources/checked_modules bits are "
+                                   f"{iv[0]} (incremental) / {fv[0]} (fresh), expected 7"))
                 if iv[1] != fv[1] or iv[2] != fv[2]:
                     orc.append((i, f"module {n}: incremental server holds {len(iv[1])} diagnostics "
                                    f"{sorted(iv[1])}, a fresh server {len(fv[1])} {sorted(fv[1])}"))
             for n, v in inc.items():
                 if n not in files and v[1]:
                     orc.append((i, f"module {n} is not a source but the server still holds {len(v[1])} diagnostics for it"))
+                if n not in files and v[0]:
+                    orc.append((i, f"module {n} is not a file but is still a key of parsed/string_sources/checked_modules (bits {v[0]})"))
         if model is not None:
             mo = parse_obs(model[i + 1])
             if mo is None:
                 tie.append((i, f"model answered {model[i + 1][:80]} but the implementation did not fail"))
                 break
             for n in sorted(set(inc) | set(mo)):
-                iv = inc.get(n, (False, frozenset(), None))
-                mv = mo.get(n, (False, frozenset(), None))
+                iv = inc.get(n, (0, frozenset(), None))
+                mv = mo.get(n, (0, frozenset(), None))
                 mt = map_ptoks(tb, n, mv[1])
                 if iv[0] != mv[0] or iv[1] != mt:
-                    tie.append((i, f"module {n}: implementation {'+' if iv[0] else '-'}{sorted(iv[1])} "
-                                   f"model {'+' if mv[0] else '-'}{sorted(mt)}"))
+                    tie.append((i, f"module {n}: implementation bits={iv[0]} {sorted(iv[1])} "
+                                   f"model bits={mv[0]} {sorted(mt)}"))
     return orc, tie
 
 
@@ -421,7 +426,330 @@ def shrink(tb, h, pred):
     return mk(ops, init)
 
 
+def gen_graph(rng):
+    """A random import graph on plain data: cyclic, self, missing imports, dirty sets incl. missing nodes."""
+    n = rng.range(1, 8)
+    nodes = [f"N{i}" for i in range(n)] + (["q.M"] if rng.chance(1, 3) else [])
+    universe = nodes + ["Z1", "Z2"]          # Z*: never sources
+    dens = rng.pick([1, 2, 3])
+    parts = []
+    for m in nodes:
+        imps = []
+        for _ in range(rng.below(dens + 1)):
+            imps.append(rng.pick(universe + [m]))
+        parts.append(f"{m}={','.join(imps) if imps else '-'}")
+    dirty = [rng.pick(universe) for _ in range(rng.range(0, 3))]
+    return "graph " + " ".join(parts) + " // " + " ".join(dirty)
+
+
+def graph_stream(ctx, n):
+    """Hook H5: the real DependencyGraph::new + affected_set vs the model's affectedSet, exact sets."""
+    rng = ctx.rng.fork()
+    lines = [gen_graph(rng) for _ in range(n)]
+    lines += ["graph A=B B=A C=C D=Z1 // Z1", "graph A=- // ", "graph A=A // A Q"]
+    impl, model = run_impl(lines), run_model(lines)
+    sizes = {}
+    for l, a, b in zip(lines, impl, model):
+        sa = set() if a == "-" else set(a.split(","))
+        sb = set() if b == "-" else set(b.split(","))
+        sizes[len(sa)] = sizes.get(len(sa), 0) + 1
+        if a.startswith("panic") or a.startswith("<") or sa != sb:
+            # the model's set is exactly fwd*(rev*(dirty)) (theorem affected_exact): smaller => a dependent is
+            # not rechecked (search for a diagnostics failure), larger => deviation without a failing input
+            if not (sa >= sb) and find_oracle_failure(ctx, None, "search after affected_set disagreement"):
+                return len(lines), sizes
+            ctx.violation("DependencyGraph::affected_set differs from the model's affectedSet (= forward closure of the reverse "
+                          "closure, theorem affected_exact): real " + (a or "-") + " model " + (b or "-"),
+                          {"protocol": "lsphist/graph", "line": l, "impl": a, "model": b,
+                           "broken": "correspondence of affected_set (hook H5) with Model/Incremental.lean affectedSet"},
+                          no_input=True)
+            return len(lines), sizes
+    return len(lines), sizes
+
+
+# ----------------------------------------------------------------------------------------------
+# the real LSP handlers (crates/samlang-cli/src/main.rs) driven over stdio
+
+CLI_TARGET = os.path.join(common.HARNESS, "target", "cli")
+
+
+def build_cli():
+    with common.Lock("cargo"):
+        rc, out = common.sh(["cargo", "build", "--offline", "-p", "samlang-cli", "--target-dir", CLI_TARGET],
+                            cwd=common.REPO, timeout=1800)
+    if rc != 0:
+        raise common.BuildError("cargo build -p samlang-cli (LSP binary)", out[-4000:])
+    return os.path.join(CLI_TARGET, "debug", "samlang-cli")
+
+
+class Lsp:
+    """Minimal JSON-RPC client for `samlang-cli lsp` in a scratch project directory."""
+
+    def __init__(self, binary, root):
+        import subprocess
+        self.root = root
+        self.src = os.path.join(root, "src")
+        self.p = subprocess.Popen([binary, "lsp"], cwd=root, stdin=subprocess.PIPE, stdout=subprocess.PIPE,
+                                  stderr=subprocess.DEVNULL)
+        self.buf = b""
+        self.nid = 0
+
+    def send(self, method, params, request=False):
+        msg = {"jsonrpc": "2.0", "method": method, "params": params}
+        if request:
+            self.nid += 1
+            msg["id"] = self.nid
+        body = json.dumps(msg).encode()
+        self.p.stdin.write(b"Content-Length: %d\r\n\r\n" % len(body) + body)
+        self.p.stdin.flush()
+
+    def read(self, timeout):
+        """One message or None on timeout / EOF."""
+        import select
+        fd = self.p.stdout.fileno()
+        while True:
+            i = self.buf.find(b"\r\n\r\n")
+            if i >= 0:
+                n = 0
+                for h in self.buf[:i].split(b"\r\n"):
+                    if h.lower().startswith(b"content-length:"):
+                        n = int(h.split(b":")[1])
+                if len(self.buf) >= i + 4 + n:
+                    body = self.buf[i + 4:i + 4 + n]
+                    self.buf = self.buf[i + 4 + n:]
+                    return json.loads(body)
+            r, _, _ = select.select([fd], [], [], timeout)
+            if not r:
+                return None
+            chunk = os.read(fd, 65536)
+            if not chunk:
+                return None
+            self.buf += chunk
+
+    def uri(self, m):
+        return "file://" + os.path.join(self.src, *m.split(".")) + ".sam"
+
+    def path(self, m):
+        return os.path.join(self.src, *m.split(".")) + ".sam"
+
+    def start(self):
+        self.send("initialize", {"processId": None, "rootUri": "file://" + self.root, "capabilities": {}}, request=True)
+        while True:
+            m = self.read(20)
+            if m is None:
+                return False
+            if m.get("id") == self.nid:
+                break
+        self.send("initialized", {})
+        return True
+
+    def collect(self, expect, timeout=10):
+        """publishDiagnostics notifications: waits for `expect` of them, then drains briefly."""
+        got = {}
+        n = 0
+        while True:
+            m = self.read(timeout if n < expect else 0.05)
+            if m is None:
+                break
+            if m.get("method") == "textDocument/publishDiagnostics":
+                n += 1
+                got[m["params"]["uri"]] = m["params"]["diagnostics"]
+        return got, n
+
+    def close(self):
+        try:
+            self.p.kill(); self.p.wait(timeout=5)
+        except Exception:
+            pass
+
+
+def canon_msg(s):
+    out, run = [], []
+    for l in s.split("\n"):
+        if l.startswith("- "):
+            run.append(l)
+        else:
+            out += sorted(run) + [l]; run = []
+    return "\n".join(out + sorted(run))
+
+
+def decode_vtok(t):
+    """verbose token (hex of `file:a:b-c:d|message|refs`) -> (0-based range, message)"""
+    import re
+    s = bytes.fromhex(t).decode()
+    loc, rest = s.split("|", 1)
+    msg = rest.rsplit("|", 1)[0]
+    m = re.match(r"^.*:(\d+):(\d+)-(\d+):(\d+)$", loc)
+    a, b, c, d = (int(x) - 1 for x in m.groups())
+    return (a, b, c, d, msg)
+
+
+def gen_events(rng, nev):
+    """A history of LSP notifications over files of a scratch project (module names as in NAMES)."""
+    pool = NAMES[:rng.range(2, 5)]
+    files = {m: gen_content(rng, m, pool, True)[0] for m in pool if rng.chance(2, 3)}
+    if not files:
+        files[pool[0]] = gen_content(rng, pool[0], pool, True)[0]
+    init = dict(files)
+    evs = []
+    for _ in range(nev):
+        live = sorted(files)
+        k = rng.weighted([("chg", 40), ("cre", 15), ("ren", 18), ("del", 15), ("del_unknown", 8), ("cre_unreadable", 4)])
+        if k == "chg":
+            m = rng.pick(live) if live and rng.chance(4, 5) else rng.pick(pool)
+            ev = ("chg", [(m, gen_content(rng, m, pool, True)[0])])
+        elif k == "cre":
+            ms = rng.shuffle(pool)[:rng.range(1, 2)]
+            ev = ("cre", [(m, gen_content(rng, m, pool, True)[0]) for m in ms])
+        elif k == "cre_unreadable":
+            ev = ("cre", [(rng.pick(pool), None)])
+        elif k == "ren":
+            a = rng.pick(live) if live and rng.chance(4, 5) else rng.pick(pool)
+            ev = ("ren", [(a, rng.pick(pool))])
+        elif k == "del":
+            ev = ("del", [rng.pick(live)] if live else [rng.pick(pool)])
+        else:
+            ev = ("del", [rng.pick(["Ghost", "never.Seen"])] + ([rng.pick(live)] if live and rng.chance(1, 2) else []))
+        evs.append(ev)
+        apply_event_fs(files, ev)
+    return init, evs
+
+
+def apply_event_fs(files, ev):
+    k, v = ev
+    if k in ("chg", "cre"):
+        for m, t in v:
+            if t is not None:
+                files[m] = t
+    elif k == "ren":
+        for a, b in v:
+            if a in files:
+                files[b] = files.pop(a)
+    else:
+        for m in v:
+            files.pop(m, None)
+
+
+def lsp_stream(ctx, tb, binary, nhist):
+    """Real handlers vs (a) a fresh ServerState on the resulting files and (b) the real incremental ServerState
+    driven by the op lines the Lean model of the glue (`glue`) derives from the same notifications."""
+    import shutil, tempfile
+    rng = ctx.rng.fork()
+    stats = {"histories": 0, "notifications": 0, "kinds": {}, "unknown_file_deletes": 0,
+             "modules_compared": 0, "diagnostics_compared": 0}
+    os.makedirs(common.SCRATCH_ROOT, exist_ok=True)
+    for hi in range(nhist):
+        init, evs = gen_events(rng.fork(), rng.range(2, 7))
+        texts = list(init.values()) + [t for _, v in evs if _ in ("chg", "cre") for _m, t in v if t is not None]
+        tb.ids(texts)
+        # model glue: notification -> op line
+        known = set(init)
+        evlines = []
+        for k, v in evs:
+            if k == "chg":
+                evlines.append(f"ev chg {v[0][0]}={tb.cid[v[0][1]]}")
+            elif k == "cre":
+                evlines.append("ev cre " + " ".join(f"{m}={'?' if t is None else tb.cid[t]}" for m, t in v))
+            elif k == "ren":
+                evlines.append("ev ren " + " ".join(f"{a}:{b}" for a, b in v))
+            else:
+                evlines.append("ev del " + " ".join(m if m in known else "?" for m in v))
+                stats["unknown_file_deletes"] += sum(1 for m in v if m not in known)
+            for x in v:
+                if k in ("chg", "cre"):
+                    known.add(x[0])
+                elif k == "ren":
+                    known.update(x)
+            stats["kinds"][k] = stats["kinds"].get(k, 0) + 1
+        oplines = run_model(evlines)
+        # expected: harness, verbose tokens
+        lines = tb.def_lines() + ["new " + " ".join(f"{m}={tb.cid[t]}" for m, t in sorted(init.items()))]
+        files = dict(init)
+        idx = []
+        for ev, ol in zip(evs, oplines):
+            lines.append(ol if len(ol.split(" ")) > 1 else "rem Zz9")   # an empty batch is still a call
+            apply_event_fs(files, ev)
+            lines.append(("fresh " + " ".join(f"{m}={tb.cid[t]}" for m, t in sorted(files.items()))).strip())
+            idx.append((len(lines) - 2, len(lines) - 1, dict(files)))
+        out = run_impl(lines, verbose=True)
+        # real LSP
+        root = tempfile.mkdtemp(prefix="c10-lsp-", dir=common.SCRATCH_ROOT)
+        try:
+            os.makedirs(os.path.join(root, "src"))
+            open(os.path.join(root, "sconfig.json"), "w").write(
+                '{"sourceDirectory": "src", "__dangerously_allow_libdef_shadowing__": true}')
+            lsp = Lsp(binary, os.path.realpath(root))
+            for m, t in init.items():
+                os.makedirs(os.path.dirname(lsp.path(m)), exist_ok=True)
+                open(lsp.path(m), "w").write(t)
+            if not lsp.start():
+                ctx.violation("samlang-cli lsp did not answer initialize", {"history": [init, evs]}, no_input=True)
+                return stats
+            stats["histories"] += 1
+            for ei, (ev, (ia, fa, fmap)) in enumerate(zip(evs, idx)):
+                k, v = ev
+                if k == "chg":
+                    m, t = v[0]
+                    os.makedirs(os.path.dirname(lsp.path(m)), exist_ok=True)
+                    open(lsp.path(m), "w").write(t)
+                    lsp.send("textDocument/didChange", {"textDocument": {"uri": lsp.uri(m), "version": ei + 2},
+                                                        "contentChanges": [{"text": t}]})
+                elif k == "cre":
+                    for m, t in v:
+                        if t is not None:
+                            os.makedirs(os.path.dirname(lsp.path(m)), exist_ok=True)
+                            open(lsp.path(m), "w").write(t)
+                        elif os.path.exists(lsp.path(m)):
+                            os.remove(lsp.path(m))
+                    lsp.send("workspace/didCreateFiles", {"files": [{"uri": lsp.uri(m)} for m, _ in v]})
+                elif k == "ren":
+                    for a, b in v:
+                        if os.path.exists(lsp.path(a)) and a != b:
+                            os.makedirs(os.path.dirname(lsp.path(b)), exist_ok=True)
+                            os.replace(lsp.path(a), lsp.path(b))
+                    lsp.send("workspace/didRenameFiles", {"files": [{"oldUri": lsp.uri(a), "newUri": lsp.uri(b)} for a, b in v]})
+                else:
+                    for m in v:
+                        if os.path.exists(lsp.path(m)):
+                            os.remove(lsp.path(m))
+                    lsp.send("workspace/didDeleteFiles", {"files": [{"uri": lsp.uri(m)} for m in v]})
+                stats["notifications"] += 1
+                on_disk = sorted(m for m in fmap if os.path.exists(lsp.path(m)))
+                got, n = lsp.collect(len(on_disk))
+                exp_fresh, exp_inc = parse_obs(out[fa]), parse_obs(out[ia])
+                problems = []
+                if exp_fresh is None or exp_inc is None:
+                    problems.append(f"harness failed: {out[ia][:80]} / {out[fa][:80]}")
+                else:
+                    if sorted(got) != sorted(lsp.uri(m) for m in on_disk):
+                        problems.append(f"diagnostics published for {sorted(u.rsplit('/src/', 1)[-1] for u in got)}, files are {on_disk}")
+                    for m in on_disk:
+                        real = sorted(set((d["range"]["start"]["line"], d["range"]["start"]["character"],
+                                           d["range"]["end"]["line"], d["range"]["end"]["character"],
+                                           canon_msg(d["message"])) for d in got.get(lsp.uri(m), [])))
+                        stats["modules_compared"] += 1
+                        stats["diagnostics_compared"] += len(real)
+                        for label, exp in (("a fresh ServerState on the files", exp_fresh),
+                                           ("ServerState driven by the model's glue", exp_inc)):
+                            want = sorted(set(decode_vtok(t) for t in exp.get(m, (0, frozenset(), None))[1]))
+                            if real != want:
+                                problems.append(f"module {m}: LSP published {len(real)} diagnostics {real[:2]}, {label} has {len(want)} {want[:2]}")
+                if problems:
+                    ctx.violation("LSP handlers: published diagnostics differ from the expected ones after notification "
+                                  f"#{ei} ({k}): " + problems[0],
+                                  {"protocol": "lsp-stdio", "initial_files": init, "notifications": [[k2, v2] for k2, v2 in evs[:ei + 1]],
+                                   "problems": problems, "model_glue_ops": oplines[:ei + 1]})
+                    lsp.close()
+                    return stats
+            lsp.close()
+        finally:
+            shutil.rmtree(root, ignore_errors=True)
+    return stats
+
+
 def find_oracle_failure(ctx, tb, label):
+    if tb is None:
+        tb = Table()
     """Search: random histories in the regime of the partial theorem, oracle only.  Records a VIOLATION
     with the shrunk concrete history if one is found that matches no open finding."""
     rng = ctx.rng.fork()
@@ -536,6 +864,15 @@ def run(ctx):
                     break
             elif len(samples) < 3 and len(h.ops) >= 3:
                 samples.append(h.to_json())
+    # 3b. exact affected_set correspondence on plain graphs (hook H5)
+    ngraphs, gsizes = graph_stream(ctx, ctx.scale(400, 6000)) if not ctx.violations else (0, {})
+    # 3c. the real LSP handlers over stdio
+    lsp_stats = {}
+    if not ctx.violations:
+        try:
+            lsp_stats = lsp_stream(ctx, tb, build_cli(), ctx.scale(12, 150))
+        except common.BuildError as e:
+            ctx.violation(f"{e.what} failed", {"broken": e.what, "log": e.log}, no_input=True)
     # 4. dynamic check of the theorem's hypotheses on every evaluated checker call
     def fresh_shaped(key):   # every signature was built under its own name, builtin under ROOT
         g = key.split("/", 2)[2]
@@ -611,6 +948,8 @@ def run(ctx):
         "frame_hypothesis_pairs_checked": getattr(tb, "frame_pairs", 0),
         "histories_matching_known_findings": stats["oracle_known"],
         "foreign_located_errors_seen": nforeign,
+        "lsp_stdio": lsp_stats,
+        "affected_set_graphs_compared_exactly": ngraphs, "affected_set_size_histogram": gsizes,
         "pending": ["hook for DependencyGraph::affected_set (exact comparison of the recheck set; today it is tied through its effects on diagnostics)",
                     "checked_modules / GC interplay (property C11)"],
         "partial_theorems": {},
